@@ -12,15 +12,15 @@ import (
 )
 
 type Clause struct {
-	Kind  string // requires | ensures | invariant | lemma
-	Label string
-	Props []string
-	Src   string
-	E     Expr
-	Loop  int
-	File  string
-	Line  int
-	Guard bool // requires clause that is a write guard (reported as guard.*)
+	Kind    string // requires | ensures | invariant | lemma
+	Label   string
+	Props   []string
+	Src     string
+	E       Expr
+	Loop    int
+	File    string
+	Line    int
+	Guard   bool // requires clause that is a write guard (reported as guard.*)
 	Assumed bool // ensures clause that is assumed at call sites but not proved in the body (ghost bookkeeping)
 }
 
@@ -41,7 +41,7 @@ type Contract struct {
 	Pure        bool // no effect on the modelled heap, result unconstrained except by ensures
 	Trusted     bool // contract is assumed (library / interface), never verified
 	NoInline    bool
-	Safe        bool // emit safe.* obligations for this function
+	Safe        bool     // emit safe.* obligations for this function
 	Fresh       []string // result expressions that are freshly allocated
 	Props       []string // properties this function is verified for
 	Probes      []*Clause
@@ -92,7 +92,7 @@ type ContractSet struct {
 	Lemmas []*Lemma
 	Files  []string
 	// textual scan for forbidden constructs
-	Assumes []string
+	Assumes        []string
 	AssumedClauses []string
 }
 
